@@ -10,7 +10,7 @@ DataChoices == {<<>>, <<7>>, <<0, 10>>}
 SingleSegs == {Seg(n, t, d, pg[1], pg[2], r, rt, dt) : n \in {1, 256, 257, 65536, 65537}, t \in {0, 38, 49}, d \in B2, pg \in PageChoices,
                r \in {<<>>}, rt \in {<<0>>}, dt \in DataChoices}
 SingleLists == {<<s>> : s \in SingleSegs}
-SingleListsQuick == {<<s>> : s \in {x \in SingleSegs : x.num \in {1, 65537} /\ x.type \in {0, 49}}}
+SingleListsQuick == {<<s>> : s \in {sg \in SingleSegs : sg.num \in {1, 65537} /\ sg.type \in {0, 49}}}
 RefSegs == UNION {{Seg(n, 0, FALSE, FALSE, 1, r, rt, <<7>>) : rt \in RetainFor(Len(r))} : n \in {10, 256, 257, 65537}, r \in RefChoices}
 RefLists == {<<s>> : s \in RefSegs}
 \* short lists for the page bookkeeping of write_segments / write_file
